@@ -603,7 +603,7 @@ func main() {
 
 	// 0. constants and the EIP-191 prefix
 	run.AddCase(hx.CoqApp("CSecp", btcec.S256().N.String()+"%N"), jcase{Kind: "secp"}, "secp", true)
-	for _, n := range []int{0, 1, 9, 10, 11, 32, 99, 100, 101, 999, 1000, 1001, 12345} {
+	for _, n := range []int{0, 1, 9, 10, 11, 32, 99, 100, 101, 999, 1000, 1001, 4999} {
 		doPrefix(r.Bytes(n))
 	}
 
@@ -687,7 +687,7 @@ func main() {
 		kb := keys[g%len(keys)]
 		id := r.Bytes(32)
 		payload := r.Bytes([]int{1, 32, 47, 5, 64, 33}[g%6])
-		doMutGroup(kb, id, payload, genMuts(kb, id, payload, per), run.N(8, 6))
+		doMutGroup(kb, id, payload, genMuts(kb, id, payload, per), run.N(12, 6))
 	}
 
 	// 4. malformed stream
